@@ -4,5 +4,7 @@ cd /verif
 for d in seeded/*/; do
   s=$(basename $d)
   git -C /repo apply --check /verif/$d/patch.diff 2>/dev/null || { echo "$s patch does not apply on current /repo"; continue; }
-  lib/seeded.sh $s ${s:0:3} | grep exit=
+  # the check(s) that are expected to catch the change: its own property's, unless seeded/<id>/checks.txt names others
+  cks=${s:0:3}; [ -f $d/checks.txt ] && cks=$(cat $d/checks.txt)
+  lib/seeded.sh $s $cks | grep exit=
 done
